@@ -54,6 +54,30 @@ def run(chk, tier, seed, replay):
                 if bad:
                     chk.mismatch({"hist": h}, bad, what=bad["what"])
             chk.sample({"history": [{k: e[k] for k in ("op", "name", "obj", "sp", "dir", "ow", "err")} for e in hs[len(hs) // 3]]})
+        # ---- code -> spec: long random histories recorded from the real library, validated by Trace_IO
+        import copy
+        import random
+
+        from ..core import validate_traces
+
+        rng = random.Random(seed)
+        n_tr, n_ops = (80, 40) if tier == "quick" else (800, 60)
+        traces = [ad.record_random(rng, n_ops) for _ in range(n_tr)]
+        rej, _ = validate_traces(chk, "io_traces", "MC_Trace_IO", "Trace_IO.cfg", traces, s)
+        chk.replayed += len(traces)
+        chk.count("io_trace_events", sum(len(t["events"]) for t in traces))
+        for i, t in enumerate(traces):
+            chk.case(("trace", i, json.dumps(t["events"][:6])))
+        for ti, k in sorted(rej.items())[:5]:
+            t = traces[ti] if ti >= 0 else None
+            chk.mismatch({"trace": t}, {"events_matched": k, "offending_event": t["events"][k] if t and k < len(t["events"]) else None},
+                         what="recorded export / import history rejected by Trace_IO")
+        bad_tr = copy.deepcopy(traces[:10])
+        vi, vj = next((i, j) for i, t in enumerate(bad_tr) for j, e in enumerate(t["events"]) if e["op"] == "export" and e["err"] == "OverwriteError")
+        bad_tr[vi]["events"][vj]["err"] = ""          # a clobbering export that was "accepted"
+        rej2, _ = validate_traces(chk, "io_traces_selftest", "MC_Trace_IO", "Trace_IO.cfg", bad_tr, s)
+        if vi not in rej2:
+            raise tlc.MachineryError("binding self-test failed: corrupted IO trace accepted")
         for c in ad.roundtrip_cases():
             chk.case(("roundtrip", c[0]))
             chk.replayed += 1
